@@ -58,11 +58,13 @@ func (s *Stream) Recv(msg any) error {
 		if need > cap(buf) {
 			buf = slices.Grow(buf, need-cap(buf))
 		}
+		// A Read may return n > 0 bytes together with an error (typically io.EOF): as required by the
+		// io.Reader contract, the bytes are processed before the error is considered.
 		n, err := s.inner.Read(buf[read:need])
-		if err != nil {
-			return err
-		}
 		if n == 0 {
+			if err != nil {
+				return err
+			}
 			if read == 0 {
 				return io.ErrUnexpectedEOF
 			}
@@ -75,6 +77,9 @@ func (s *Stream) Recv(msg any) error {
 		}
 		if read >= need {
 			return UnmarshalTTLV(buf[:need], msg)
+		}
+		if err != nil {
+			return err
 		}
 	}
 }
